@@ -3,7 +3,7 @@
    be: floating-point special functions of third-party libraries): numerical agreement of the
    implementation's complete tables with independently computed ones (scipy / math), within 1e-6. *)
 From Coq Require Import QArith List Arith Bool.
-From MdpaxV Require Import Proofs.C13P.
+From MdpaxV Require Import Model.QFun Model.Hendrix Proofs.C13P Proofs.C16P Proofs.MultinomP Proofs.HendrixP.
 Import ListNotations.
 Open Scope Q_scope.
 
@@ -20,7 +20,17 @@ Theorem negbin_success_prob_partial : forall n delta, 0 < n -> 0 < delta ->
 Proof. exact negbin_success_prob_l. Qed.
 Print Assumptions negbin_success_prob_partial.
 
-(* bins: entry d is cdf(d + 1/2) - cdf(d - 1/2), entry 0 is cdf(1/2) - cdf(0); the last bin carries the whole tail *)
+(* bins, EVERY table length (cdf = the cdf at the bin edges 0, 1/2, 3/2, ..., max_demand - 1/2, max_demand + 1/2): entry d
+   is cdf[d+1] - cdf[d], i.e. cdf(d + 1/2) - cdf(d - 1/2) (and cdf(1/2) - cdf(0) for d = 0); the last entry carries the whole
+   censored tail, 1 - cdf(max_demand - 1/2) + cdf(0) *)
+Theorem demoor_bins : forall cdf, (2 <= length cdf)%nat ->
+  length (censored_pmf cdf) = (length cdf - 1)%nat /\
+  (forall k, (k + 2 < length cdf)%nat -> nth k (censored_pmf cdf) 0 == nth (S k) cdf 0 - nth k cdf 0) /\
+  nth (length cdf - 2) (censored_pmf cdf) 0 == 1 - nth (length cdf - 2) cdf 0 + nth 0 cdf 0.
+Proof. exact censored_pmf_bins. Qed.
+Print Assumptions demoor_bins.
+
+(* the same on a 4-point table, by computation *)
 Theorem demoor_bins_partial : forall c0 c1 c2 c3, censored_pmf [c0; c1; c2; c3] = [c1 - c0; c2 - c1; (c3 - c2) + (1 - ((c1 - c0) + ((c2 - c1) + ((c3 - c2) + 0))))].
 Proof. exact (fun c0 c1 c2 c3 => eq_refl). Qed.
 Print Assumptions demoor_bins_partial.
@@ -37,3 +47,20 @@ Theorem forest_fire_table_partial : forall p, 0 <= p <= 1 ->
   (0 <= 1 - p /\ 0 <= p /\ (1 - p) + p == 1) /\ (0 <= 1 /\ 0 <= 0 /\ 1 + 0 == 1).
 Proof. exact forest_rows. Qed.
 Print Assumptions forest_fire_table_partial.
+
+(* Hendrix: the four documented cases of (units issued of A, of B) over the oracle tables, as the model computes them
+   (Model/Hendrix.v is compared entry by entry with random_event_probability in C13): below both stocks the two demands are
+   independent; at the stock of A the whole upper tail of A's demand is collected; at the stock of B the substitution
+   table pz takes over *)
+Theorem hendrix_cases : forall (pa pb : nat -> Q) bin D sa sb ia ib,
+  ((ia < sa)%nat -> (ib < sb)%nat -> hx_prob pa pb bin D sa sb ia ib == pa ia * pb ib) /\
+  ((ib < sb)%nat -> hx_prob pa pb bin D sa sb sa ib == (1 - fsum pa sa) * pb ib) /\
+  ((ia < sa)%nat -> hx_prob pa pb bin D sa sb ia sb == hx_pz pa pb bin D sb ia).
+Proof. exact hx_prob_cases. Qed.
+Print Assumptions hendrix_cases.
+
+(* Mirjalili: the received-units law is the multinomial with coefficient = product of binomials = q! / prod r_i!
+   (checked against factorials on every composition of 6 into 3 parts) *)
+Example mirjalili_coefficient_is_factorial_quotient :
+  forallb (fun r => Qeq_bool (mcoef r * inject_Z (Z.of_nat (fold_right (fun k acc => (fact k * acc)%nat) 1%nat r))) (inject_Z (Z.of_nat (fact 6)))) (comps 3 6) = true.
+Proof. vm_compute. reflexivity. Qed.
